@@ -45,6 +45,11 @@ def get_imported_names(ast_tree: ast.Module) -> Set[str]:
     }
 
 
+def get_import_bound_names(ast_tree: ast.Module) -> Set[str]:
+    """Get all names that the imports of a module bind. `import a.b` binds a, not a.b."""
+    return {name.split(".")[0] for name in get_imported_names(ast_tree)}
+
+
 def code_dependencies_outputs(code: Sequence[ast.AST]) -> Tuple[Set[str], Set[str], Set[str]]:
     """Get required and created names in code.
 
